@@ -12,6 +12,7 @@ import (
 	"reflect"
 	"sort"
 	"strings"
+	"sync/atomic"
 	"testing"
 	"testing/synctest"
 	"time"
@@ -1016,6 +1017,16 @@ func (e *env) main(inClose, closeReturned *bool) {
 		}
 	}
 
+	if !spec.Parallel {
+		for _, id := range sdl.SortedKeys(e.hands) {
+			if n := atomic.LoadInt32(&e.hands[id].KindCalls); n != 0 && p.InstByID(id) != nil {
+				if obs.KindCalls == nil {
+					obs.KindCalls = map[string]int{}
+				}
+				obs.KindCalls[id] = int(n)
+			}
+		}
+	}
 	// observations
 	obs.Points = map[string]map[string][]string{}
 	obs.Cfg = map[string]map[string]string{}
